@@ -1047,7 +1047,8 @@ class XPathEval(Comp):
             # 4 or more (internal) metadata items: moveto_attr() retypes the set items to META in place without updating
             # the set's hash table, the consistency assert of set_sort() fails at the next predicate
             return ("xpath-attr-internal-meta", detail)
-        if " attribute " in f[6] and ("m" in got.split(":")[-1].split(",") or got.startswith(("F:", "B:", "S:"))):
+        if " attribute " in f[6] and not got.startswith(("CRASH", "E")):
+            # in the model the attribute axis selects nothing; whatever the library selects through it
             # the only metadata in these trees is libyang's internal yang:lyds_tree (sorted (leaf-)lists)
             return ("xpath-attr-internal-meta", detail)
         if "( name - " in f[6]:
